@@ -118,3 +118,16 @@ MUTANTS += [
     dict(id="c18-sort-by-files", props=["C18"], edits=[("codelimit/common/ScanTotals.py", "self._languages_totals.values(), key=lambda x: x.loc, reverse=True", "self._languages_totals.values(), key=lambda x: x.files, reverse=True")]),
     dict(id="c18-total-delta-functions", props=["C18"], edits=[("codelimit/common/ScanTotalsDelta.py", "        delta = total_functions - self._scan_totals_previous.total_functions()", "        delta = total_functions - self._scan_totals_previous.total_files()")]),
 ]
+
+
+# ---- false-alarm guards: behaviour-preserving changes; every listed check must stay at exit 0 (expect="held")
+MUTANTS += [
+    dict(id="neutral-cache-disabled", expect="held", props=["C09", "C10", "C06"], edits=[("codelimit/commands/scan.py", "    cached_report = _read_cached_report(report_path)", "    cached_report = None  # caching switched off")]),
+    dict(id="neutral-atomic-cache-write", expect="held", props=["C09", "C10"], edits=[("codelimit/commands/scan.py", "    report_path.write_text(ReportWriter(report).to_json())", "    tmp_path = report_path.with_suffix('.tmp')\n    tmp_path.write_text(ReportWriter(report).to_json())\n    tmp_path.replace(report_path)")]),
+    dict(id="neutral-fold-rewritten", expect="held", props=["C01", "C05", "C17"], edits=[(SU, "    return [s for s in scopes if s.header.name_token.location.line not in nocl_comment_lines]", "    marked = set(nocl_comment_lines)\n    kept = []\n    for s in scopes:\n        if s.header.name_token.location.line in marked:\n            continue\n        kept.append(s)\n    return kept")]),
+    dict(id="neutral-profile-rewritten", expect="held", props=["C02", "C07", "C19"], edits=[(U, "def make_count_profile(measurements: list[Measurement]):\n    result = [0, 0, 0, 0]", "def make_count_profile(measurements: list[Measurement]):\n    measurements = sorted(measurements, key=lambda m: -m.value)\n    result = [0, 0, 0, 0]")]),
+    dict(id="neutral-walk-sorted", expect="held", props=["C11", "C12", "C06"], edits=[(SC, "        files = [f for f in files if not f[0] == \".\"]\n        dirs[:] = [d for d in dirs if not d[0] == \".\"]\n        for file in files:\n            rel_path = Path(os.path.join(root, file)).relative_to(path.absolute())", "        files = sorted(f for f in files if not f.startswith(\".\"))\n        dirs[:] = sorted(d for d in dirs if not d.startswith(\".\"))\n        for file in files:\n            rel_path = Path(os.path.join(root, file)).relative_to(path.absolute())")]),
+    dict(id="neutral-matcher-refactor", expect="held", props=["C13", "C14", "C15"], edits=[(MA, "def match(expression: Expression, sequence: list) -> Pattern | None:\n    nfa = expression_to_nfa(expression)\n    dfa = nfa_to_dfa(nfa)", "def match(expression: Expression, sequence: list) -> Pattern | None:\n    dfa = nfa_to_dfa(expression_to_nfa(expression))")]),
+    dict(id="neutral-writer-ensure-ascii-off", expect="held", props=["C08", "C07"], edits=[("codelimit/common/report/ReportWriter.py", "from json import dumps\n", "from json import dumps as _dumps\n\n\ndef dumps(value):\n    return _dumps(value, ensure_ascii=False)\n")]),
+    dict(id="neutral-render-width", expect="held", props=["C18", "C19"], edits=[("codelimit/common/SummaryTable.py", "        super().__init__(expand=True, box=box.SIMPLE)", "        super().__init__(expand=True, box=box.SIMPLE, pad_edge=False)")]),
+]
